@@ -27,7 +27,7 @@ def one (tid):
     r = subprocess.run('/venv/bin/python -m compileall -q pox >/dev/null 2>&1', shell=True, cwd=tmp)
     if r.returncode: return tid, 'COMPILE-FAIL', ''
     b = subprocess.run(['/venv/bin/python', V + '/tools/baseline.py', tmp], capture_output=True, text=True)
-    raw = ('/root/benign_raw4/%s' if '_cg' in tid else ('/root/benign_raw3/%s' if '_bg' in tid else '/root/benign_raw/%s')) % tid.split('_')[0]
+    raw = ('/root/benign_raw5/%s' if '_dg' in tid else '/root/benign_raw4/%s' if '_cg' in tid else ('/root/benign_raw3/%s' if '_bg' in tid else '/root/benign_raw/%s')) % tid.split('_')[0]
     s_rc = None
     if tid != 'CLEAN' and os.path.exists(raw + '/sanity.py'):
       os.makedirs(tmp + '/_seed', exist_ok=True)
